@@ -12,8 +12,10 @@ All eight evaluators (Get, First/FirstFound, Has — get.go, has.go; Locate, Exp
 per-fragment `locate`/`Walk` methods; GetNodes, FirstNode — node.go) share one traversal skeleton,
 `evalSel`, and differ in their *selection functions* (`Sel`): what a fragment selects in the last
 position and what it hands on in an inner position, with the index arithmetic transcribed from each
-file. For `Get` the machine is proved equal to the skeleton (Props/C05); for the other evaluators the
-skeleton is tied to the code by the correspondence run only.
+file. For `Get` the machine is proved equal to the skeleton (Props/C05). FirstFound, Has, Locate and Walk have
+programs of their own in `JPath/Machines.lean` (the FirstFound/Has work-list loops, the recursive `locate`/`Walk`
+methods with Locate's budget), proved equal to these skeletons in Props/C11; GetNodes/FirstNode are the skeleton
+only. Everything is tied to the Go code by the correspondence run (and the shape tripwires of JPath/Arms.lean).
 
 Deviations of the pinned code from the documented behaviour are carried explicitly behind the flags
 of `Cfg` (`Cfg.original` = the code before the fixes of /verif/notes/proposed_fixes/C05_*.md, C11_*.md,
